@@ -14,7 +14,7 @@ func init() {
 	register("MdTables", genMdTables)
 }
 
-// runeLit: a character literal ('x', '\\', '\'' ...) as its code
+// runeLit: a character literal ('x', '\\', '\” ...) as its code
 func runeLit(e ast.Expr) (int, bool) {
 	if p, ok := e.(*ast.ParenExpr); ok {
 		return runeLit(p.X)
@@ -55,8 +55,9 @@ func writesBackslash(stmts []ast.Stmt) bool {
 }
 
 // runeSetOfCond: the set of characters for which a condition over the loop variable v holds, for the shapes
-//   v == 'a' || v == 'b' ...      strings.ContainsRune(S, v)      strings.IndexRune(S, v) >= 0 / != -1
-//   strings.ContainsAny(S, string(v))
+//
+//	v == 'a' || v == 'b' ...      strings.ContainsRune(S, v)      strings.IndexRune(S, v) >= 0 / != -1
+//	strings.ContainsAny(S, string(v))
 func runeSetOfCond(e ast.Expr, v string) ([]int, bool) {
 	switch x := e.(type) {
 	case *ast.ParenExpr:
